@@ -244,6 +244,11 @@ def make_resource(holder, cfg):
             await env.gate('a')
             await ws.close()
             env.close_returned_pulls = env.pulls_issued
+            me = asyncio.current_task()
+            others = [x for x in asyncio.all_tasks() if not x.done() and x is not me and x is not t and x is not holder.get('main')]
+            if others:
+                env.problems.append('close() returned while a background task is still pending: %r'
+                                    % ([x.get_coro().__qualname__ for x in others],))
             env.log.append(('closed',))
             await t
 
@@ -277,6 +282,7 @@ def run_one(cfg, ch, built=None):
                  'scheme': 'ws', 'path': '/', 'raw_path': b'/', 'query_string': b'', 'root_path': '',
                  'headers': [(b'host', b'x')], 'server': ('x', 80), 'client': ('1.1.1.1', 1), 'subprotocols': []}
         main = loop.create_task(app(scope, env.receive, env.send))
+        holder['main'] = main
         # deterministic prelude: connect + accept, up to the first gate
         guard = 0
         while loop.step():
